@@ -40,17 +40,21 @@ def _no_rawtext(nodes):
     return out
 
 
-def case_strategy(eols):
+def case_strategy(eols, blank):
     def f():
         return st.fixed_dictionaries(
             {
-                "roots": gen.layout_forest(newlines=False, meta=1, spaces=False).map(_no_rawtext).map(gen.number),
+                "roots": gen.layout_forest(newlines=False, meta=1, spaces=False, blank=blank).map(_no_rawtext).map(gen.number),
                 "indent": st.integers(0, 6),
                 "eol": st.sampled_from(eols),
             }
         )
 
     return f
+
+
+def _has_blank(n):
+    return bool(n.get("blank")) or (n["k"] == "tag" and any(_has_blank(k) for k in n["kids"]))
 
 
 def marker(n) -> str:
@@ -88,12 +92,16 @@ def all_runs(nodes, acc):
 def check_containment(out, roots, label):
     rs = all_runs(roots, [])
     for r in rs:
-        m = marker(r[0])
+        # blank leaves (empty / whitespace-only content) carry no id: anchor the run at its first marked node
+        k = next((i for i, n in enumerate(r) if not n.get("blank")), None)
+        if k is None:
+            continue
+        m = marker(r[k])
         c = out.count(m)
         check(c == 1, f"{label}: marker {m!r} occurs {c} times", out)
-        pos = out.index(m)
+        pos = out.index(m) - len("".join(L.flat(n) for n in r[:k]))
         exp = "".join(L.flat(n) for n in r)
-        check(out.startswith(exp, pos), f"{label}: inline run is not emitted as its exact flat concatenation", exp, out[pos : pos + len(exp) + 20], out)
+        check(pos >= 0 and out.startswith(exp, pos), f"{label}: inline run is not emitted as its exact flat concatenation", exp, out[max(pos, 0) : max(pos, 0) + len(exp) + 20], out)
     return rs
 
 
@@ -120,7 +128,7 @@ def body_contain(case, note):
                 check(str(o) == L.flat(r), "str() of a block-free tag is not flat")
     any_block = any(L.contains_block(r) for r in roots)
     bii = any(has_block_in_inline(r) for r in roots)
-    note(any_block and any(len(r) >= 2 for r in rs), "block-inside-inline" if bii else "", "run>=3" if any(len(r) >= 3 for r in rs) else "")
+    note(any_block and any(len(r) >= 2 for r in rs), "block-inside-inline" if bii else "", "run>=3" if any(len(r) >= 3 for r in rs) else "", "blank-leaf" if any(_has_blank(r) for r in roots) else "")
 
 
 # ---------------------------------------------------------------- token rule
@@ -193,12 +201,12 @@ def body_tokens(case, note):
             token_rule(s[len(pre) :], [r], "Tag.get_html_string", False)
     any_block = any(L.contains_block(r) for r in roots)
     bii = any(has_block_in_inline(r) for r in roots)
-    note(any_block and any(len(r) >= 2 for r in all_runs(roots, [])), "block-inside-inline" if bii else "", "eol-empty" if eol == "" else "")
+    note(any_block and any(len(r) >= 2 for r in all_runs(roots, [])), "block-inside-inline" if bii else "", "eol-empty" if eol == "" else "", "blank-leaf" if any(_has_blank(r) for r in roots) else "")
 
 
 # ---------------------------------------------------------------- exhaustive sibling triples
 
-KINDS = ["block", "inline", "void-block", "void-inline", "text", "html", "repr", "meta", "inline-with-block"]
+KINDS = ["block", "inline", "void-block", "void-inline", "text", "html", "repr", "meta", "inline-with-block", "empty-text"]
 
 
 def mk(kind, depth=0):
@@ -219,6 +227,8 @@ def mk(kind, depth=0):
         return {"k": "repr", "s": "<u>z</u>"}
     if kind == "meta":
         return {"k": "meta"}
+    if kind == "empty-text":
+        return {"k": "text", "s": "", "blank": True}
     if kind == "inline-with-block":
         return {"k": "tag", "name": "a", "ws": False, "attrs": [], "kids": [t, {"k": "tag", "name": "p", "ws": True, "attrs": [], "kids": [t, t]}, t]}
     raise ValueError(kind)
@@ -255,11 +265,11 @@ def selftest():
 RULE = (
     "arbitrarily nested trees (including block-inside-inline) over block/inline/void tags, text, HTML(), _repr_html_ objects and "
     "metadata, every visible node id-tagged; non-trivial = at least one whitespace-enabled tag and one inline run of >=2 siblings; "
-    "class 'block-inside-inline' required; triples: complete enumeration of 3 parents x 9^3 sibling kinds x 3 outer contexts"
+    "class 'block-inside-inline' required; triples: complete enumeration of 3 parents x 10^3 sibling kinds x 3 outer contexts"
 )
 
 CLAUSES = [
-    Clause("contain", body_contain, strategy=case_strategy(EOLS_ANY), quick=800, thorough=12000, shards_quick=3, required=("block-inside-inline",), rule="see RULE"),
-    Clause("tokens", body_tokens, strategy=case_strategy(EOLS_WS), quick=800, thorough=12000, shards_quick=3, required=("block-inside-inline", "eol-empty"), rule="see RULE"),
+    Clause("contain", body_contain, strategy=case_strategy(EOLS_ANY, ("", " ", "\t", "\xa0", "  ")), quick=800, thorough=12000, shards_quick=3, required=("block-inside-inline", "blank-leaf"), rule="see RULE"),
+    Clause("tokens", body_tokens, strategy=case_strategy(EOLS_WS, ("",)), quick=800, thorough=12000, shards_quick=3, required=("block-inside-inline", "eol-empty", "blank-leaf"), rule="see RULE"),
     Clause("triples", body_triples, source="enum", enum=enum_triples, shards_quick=4, shards_thorough=8, rule="every case"),
 ]
